@@ -389,6 +389,14 @@ func alphabetBuilder(p *core.Program) *ssa.Function {
 	roles := GetRoles(p)
 	var found *ssa.Function
 	core.Instrs(gen, func(in ssa.Instruction) {
+		if _, coll, isPick := roles.IsPickCall(valueOf(in)); isPick {
+			if c, ok := core.StripType(coll).(*ssa.Call); ok {
+				if f := core.StaticCallee(c); f != nil && p.InLib(f) {
+					found = f
+				}
+			}
+			return
+		}
 		ia, ok := in.(*ssa.IndexAddr)
 		if !ok {
 			return
@@ -403,6 +411,11 @@ func alphabetBuilder(p *core.Program) *ssa.Function {
 		}
 	})
 	return found
+}
+
+func valueOf(in ssa.Instruction) ssa.Value {
+	v, _ := in.(ssa.Value)
+	return v
 }
 
 func checkCtor(p *core.Program, r *core.Report, fn *ssa.Function, typ string, want map[string]func(ssa.Value) (bool, string)) {
